@@ -9,6 +9,7 @@
 
 namespace djsim
 {
+namespace v2ns = djinterop::engine::v2;
 namespace
 {
 struct Triple
@@ -268,6 +269,7 @@ bool World::exec_detect_op(const Step& s)
 
     // ---- load_database
     std::string F = fam();
+    const uint64_t image_probe = g_disk.image_hash(true);
     {
         eng::engine_schema loaded = static_cast<eng::engine_schema>(12345);
         std::optional<dj::database> got;
@@ -346,6 +348,65 @@ bool World::exec_detect_op(const Step& s)
             if (o.threw || !exists)
                 report("C13", "C13|database_exists|false-where-present", "database_exists " + (o.threw ? "threw " + o.exc : std::string("is false")) + " for a supported library");
         }
+    }
+    // ---- the second public entry point: the 2.x table-API library
+    {
+        bool exists = false;
+        Outcome oe = call(FaultSpec{}, [&] { exists = v2ns::engine_library::exists(target); });
+        gate_log.str(oe.threw ? "lib exists threw:" + oe.exc : (exists ? "lib exists" : "lib absent"));
+        if (oe.threw || exists != d2_present)
+            report("C13", std::string("C13|engine_library.exists|") + (d2_present ? "false-where-present" : "true-where-absent"),
+                   "engine_library::exists " + (oe.threw ? "threw " + oe.exc : std::string(exists ? "is true" : "is false")) + " for layout " + where);
+        bool nf = false, unsup = false;
+        eng::engine_schema loaded = static_cast<eng::engine_schema>(12345);
+        Outcome o = call(FaultSpec{}, [&] {
+            try
+            {
+                auto lib = v2ns::engine_library::load(target);
+                loaded = lib.schema();
+            }
+            catch (const dj::database_not_found&)
+            {
+                nf = true;
+                throw;
+            }
+            catch (const dj::unsupported_database&)
+            {
+                unsup = true;
+                throw;
+            }
+        });
+        std::string outcome = o.threw ? (nf ? "database_not_found" : unsup ? "unsupported_database" : o.exc) : "schema " + std::to_string((int)loaded);
+        note("  engine_library::load -> " + outcome);
+        gate_log.str("lib " + outcome);
+        std::string ctx = "stored triple " + tri + ", layout " + where + ": v2::engine_library::load gave " + outcome;
+        if (!d2_present)
+        {
+            if (!nf)
+                report("C13", "C13|engine_library.load|expected-not-found", ctx + ", expected database_not_found");
+        }
+        else if (sup >= 11)
+        {
+            if (o.threw || loaded != eng::supported_schemas[(size_t)sup])
+                report("C13", std::string("C13|engine_library.load|") + (o.threw ? "supported-rejected" : "misidentified"),
+                       ctx + ", expected " + eng::to_string(eng::supported_schemas[(size_t)sup]));
+        }
+        else if (sup < 0 && !is3)
+        {
+            if (!unsup)
+                report("C13", std::string("C13|engine_library.load|") + (o.threw ? "wrong-exception" : "unsupported-accepted"),
+                       ctx + ", expected unsupported_database");
+        }
+        probes.hit("detect_table_entry_point");
+    }
+    // ---- detection only reads: no probe may create, delete or change a file
+    if (g_disk.open_handles() == 0 && g_disk.image_hash(true) != image_probe)
+    {
+        std::string names;
+        for (auto& f : g_disk.list_files())
+            names += f + " ";
+        report("C13", "C13|detect|files-changed",
+               "loading / existence probes on layout " + where + " (triple " + tri + ") changed the stored files; now: " + names);
     }
     // ---- put the undamaged disk back and carry on
     if (g_disk.open_handles() != 0)
